@@ -111,6 +111,8 @@ func runC07(c *Ctx) {
 		return false
 	}
 	separatorsSkipped(c, "R07.3", fn, isEmit)
+	importCellText(c, "R07.4", true)
+	importWriteDiscipline(c, "R07.2", "json")
 	rowsInOrder(c, "R07.3", fn, isEmit)
 	wv := writerValues(fn)
 	ncomma := 0
